@@ -315,6 +315,19 @@ def r6_first_appearance(R) -> None:
         ds = [n for n in f.assigns_to('symbols')]
         ok = all(isinstance(d.ast.value, ast.Dict) or text(d.ast.value) in ('{}', 'dict()', 'OrderedDict()', 'collections.OrderedDict()') for d in ds if d.ast.value is not None)
         R.check(ok and ds, q, 'symbols-dict', 'symbols accumulate in an insertion-ordered dict', '`symbols` is not an (ordered) dict', where=f.fi.where)
+    # every term of a statement goes through the merge (type-compatibility check): only verbatim terms and
+    # function symbols may be skipped
+    pe = Fn(R, f'{P}.parse_equation')
+    tl = [n for n in pe.cfg.nodes if n.kind == 'for' and text(n.ast.iter) == 'terms']
+    if R.require(pe.q, len(tl), 'loop over the terms', fi=pe.fi, pred=lambda x: isinstance(x, ast.For)):
+        lp = tl[0]
+        for n in pe.cfg.nodes:
+            if lp.id in n.loops and isinstance(n.ast, ast.Continue):
+                g = [(text(a), truth) for (a, truth, _t) in pe.guard_atoms(n.id)]
+                ok = any(truth and ('Type.VERBATIM' in a or 'Type.FUNCTION' in a) and '==' in a for (a, truth) in g)
+                R.check(ok, pe.q, 'term-skipped:' + ';'.join(a for a, _t in g)[:80], 'only verbatim terms and function symbols bypass the merge',
+                        f'a term is skipped (`continue` under {g}) before `symbols.get(name, s).combine(s)`: a repeated mention escapes the type-compatibility '
+                        f'check (a name used as variable and as parameter/error in one statement would be accepted)', where=pe.where(n))
     # parse_model iterates statements in order
     f = Fn(R, f'{P}.parse_model')
     loops = [n for n in f.cfg.nodes if n.kind == 'for']
